@@ -4,7 +4,7 @@
 From Coq Require Import String List NArith ZArith Bool.
 From J5V.lib Require Import Outcome Corr.
 From J5V.model Require Import RulesDecl RulesWrite RulesRead RulesEnum RulesCorr RulesNested RulesInlineEnum RulesCompile Regex.
-From J5V.model Require ProtoPrintFile ProtoPrintFileWf RulesView RulesTextModel.
+From J5V.model Require ProtoPrintFile ProtoPrintFileWf RulesView RulesTextModel RulesClientNames.
 Import ListNotations.
 
 Definition oZ_eq_dec : forall a b : option Z, {a = b} + {a <> b}.
@@ -116,7 +116,11 @@ Inductive c04case :=
    declaration; the emitted field, the nested enum (simple name, values); the reflected
    property and the reflected enum root (schema name, enum) *)
 | C04InlineEnum (here : list str) (idx : N) (d : prop) (i : ienum) (obs : fout) (obs_name : str) (obs_enum : enum_out)
-                (refl : option rprop) (refl_enum : option (str * renum)).
+                (refl : option rprop) (refl_enum : option (str * renum))
+(* client property names through flatten levels (/repo 96a1ec3): the other objects of the package
+   (name, client property names), the compiled tree of messages, and whether the real reader
+   refused the package with its "property name is used twice" error *)
+| C04Names (fixed : RulesClientNames.refs) (obs : mtree) (clash : bool).
 
 (* options on the value field of a map entry (the key annotation) are not part of the file model *)
 Definition drop_map_key (o : fout) : fout :=
@@ -234,6 +238,8 @@ Definition c04_check (c : c04case) : bool :=
       | _, _ => false
       end &&
       Bool.eqb (tree_rt s) (match refl with Some o => rtree_matches (norm_schema env [] name s) o | None => false end)
+  | C04Names fixed obs clash =>
+      Bool.eqb (negb (RulesClientNames.tree_names_ok fixed [] obs)) clash
   | C04InlineEnum here idx d i obs obs_name obs_enum refl refl_enum =>
       let env := env_of_decl (ie_decl (p_name d) i) in
       let same (x : rprop * (str * renum)) : bool :=
